@@ -130,7 +130,7 @@ def jobs_c13(tier, seed):
         ("ansi_256_bijection", "all 16 colours / all 256 indices, complete"),
         ("bright_projection", "all 16 colours, complete"),
     ]
-    return [J(f"c13::{n}", features=f, timeout_s=600, bound=b) for n, b in names]
+    return [J(f"c13::{n}", features=f, timeout_s=1800, mem_gb=24, expect_gb=8 if "debug_names" in n else 3, bound=b) for n, b in names]
 
 
 def jobs_c01(tier, seed):
@@ -436,7 +436,7 @@ def jobs_c17(tier, seed):
         ("colored_fg_only", "foreground only, same script space (3 inner writes)"),
         ("colored_bg_only", "background only, same script space"),
         ("colored_none", "no colour: no code at all, one data write"),
-        ("colored_vec", "Vec<u8> writer: 17x17 colour pairs x 2 data bytes, layout codes/data/reset"),
+        ("colored_vec", "Vec<u8> writer: 17x17 colour pairs x 2 data bytes, byte-identical to what a dyn Write receives"),
     ]
     return [J(f"c17::{n}", features=f, timeout_s=900, bound=b) for n, b in names]
 
